@@ -536,13 +536,8 @@ pub fn check_main(args: &[String]) -> i32 {
     for (i, why, trace) in confirmed_lost.iter() {
         let key = "no-return".to_string();
         let kf = known.findings.iter().find(|f| f.property == id && f.key == key);
-        if id != "C01" && id != "C18" {
-            // C01 speaks of termination, and C18 says what a line evaluates to when a rule accepts or
-            // declines (an evaluation that never returns evaluates to nothing); elsewhere a lost run
-            // is a harness-level problem
-            harness_errors.push(format!("index {} did not return: {}", i, why));
-            continue;
-        }
+        // every claimed property says what a line evaluates to; an evaluation that never returns (or takes
+        // the process down), confirmed alone in a fresh process, evaluates to nothing the statement allows
         if let Some(f) = kf { out_lines.push(format!("KNOWN-FINDING: property={} {}", id, f.what)); continue; }
         n_violations += 1;
         exit = 1;
